@@ -6,6 +6,10 @@
 //!   rc N           exit status
 //!   out N / err N  write N bytes to stdout / stderr (before sleeping)
 //!   touch PATH     on success append a line to PATH (the declared output of the step)
+//!   signal N       instead of exiting: journal `end <name> <ns> <128+N>`, then send signal N to the process whose pid is the
+//!                  second argument (`$$` of the shell xvc runs the command with: the shell itself, or this process when the
+//!                  shell exec'ed it) so that xvc sees a command TERMINATED BY A SIGNAL, not an exit code
+//!   sigtouch 1     with `signal`: write the declared outputs before the signal (a killed command that left its output)
 //! Journal `.ctl/journal` (O_APPEND, one write per line):
 //!   start <name> <monotonic ns>
 //!   end <name> <monotonic ns> <rc>
@@ -41,7 +45,9 @@ fn journal(line: &str) {
 fn main() {
     let name = std::env::args().nth(1).unwrap_or_default();
     let ctl = std::fs::read_to_string(format!(".ctl/{}", name)).unwrap_or_default();
+    let shell_pid = std::env::args().nth(2).unwrap_or_default();
     let (mut sleep_ms, mut rc, mut out, mut err) = (0u64, 0i32, 0usize, 0usize);
+    let (mut signal, mut sigtouch) = (0i32, false);
     let mut touch: Vec<String> = vec![];
     for l in ctl.lines() {
         let mut it = l.splitn(2, ' ');
@@ -51,6 +57,8 @@ fn main() {
             (Some("out"), Some(v)) => out = v.trim().parse().unwrap_or(0),
             (Some("err"), Some(v)) => err = v.trim().parse().unwrap_or(0),
             (Some("touch"), Some(v)) => touch.push(v.trim().to_string()),
+            (Some("signal"), Some(v)) => signal = v.trim().parse().unwrap_or(0),
+            (Some("sigtouch"), Some(v)) => sigtouch = v.trim() == "1",
             _ => {}
         }
     }
@@ -68,6 +76,24 @@ fn main() {
     }
     if sleep_ms > 0 {
         std::thread::sleep(Duration::from_millis(sleep_ms));
+    }
+    if signal > 0 && shell_pid.chars().all(|c| c.is_ascii_digit()) && !shell_pid.is_empty() {
+        if sigtouch {
+            for p in &touch {
+                if let Ok(mut f) = OpenOptions::new().create(true).append(true).open(p) {
+                    let _ = f.write_all(format!("{} partial {}\n", name, mono_ns()).as_bytes());
+                }
+            }
+        }
+        journal(&format!("end {} {} {}\n", name, mono_ns(), 128 + signal));
+        let _ = std::io::stdout().flush();
+        let _ = std::process::Command::new("kill")
+            .arg(format!("-{}", signal))
+            .arg(&shell_pid)
+            .status();
+        // when the shell did not exec this program it is the shell that died; leave quickly so that the pipes close
+        std::thread::sleep(Duration::from_millis(200));
+        std::process::exit(1);
     }
     if rc == 0 {
         for p in touch {
